@@ -264,10 +264,12 @@ fn as_u128<const B: usize, const L: usize>(v: &U<B, L>) -> Option<u128> {
 pub fn enc<const B: usize, const L: usize>(op: &str, p: &[&str]) -> String {
     let v: U<B, L> = u(p[2]);
     let mut prim_bad = false;
+    let mut app_bad = false;     // an encoder that writes into the caller's buffer did not append to what was there
     let mut out = match op {
         "arlp" => {
             let mut e = vec![];
             alloy_rlp::Encodable::encode(&v, &mut e);
+            { let mut ap = vec![0xa5u8, 0x5a, 0x01]; alloy_rlp::Encodable::encode(&v, &mut ap); app_bad |= ap[..3] != [0xa5, 0x5a, 0x01] || ap[3..] != e[..]; }
             if let Some(x) = as_u64(&v) {
                 let mut q = vec![];
                 alloy_rlp::Encodable::encode(&x, &mut q);
@@ -285,6 +287,7 @@ pub fn enc<const B: usize, const L: usize>(op: &str, p: &[&str]) -> String {
         "frlp3" => {
             let mut e = vec![];
             fastrlp_03::Encodable::encode(&v, &mut e);
+            { let mut ap = vec![0xa5u8, 0x5a, 0x01]; fastrlp_03::Encodable::encode(&v, &mut ap); app_bad |= ap[..3] != [0xa5, 0x5a, 0x01] || ap[3..] != e[..]; }
             if let Some(x) = as_u64(&v) {
                 let mut q = vec![];
                 fastrlp_03::Encodable::encode(&x, &mut q);
@@ -302,6 +305,7 @@ pub fn enc<const B: usize, const L: usize>(op: &str, p: &[&str]) -> String {
         "frlp4" => {
             let mut e = vec![];
             fastrlp_04::Encodable::encode(&v, &mut e);
+            { let mut ap = vec![0xa5u8, 0x5a, 0x01]; fastrlp_04::Encodable::encode(&v, &mut ap); app_bad |= ap[..3] != [0xa5, 0x5a, 0x01] || ap[3..] != e[..]; }
             if let Some(x) = as_u64(&v) {
                 let mut q = vec![];
                 fastrlp_04::Encodable::encode(&x, &mut q);
@@ -333,6 +337,7 @@ pub fn enc<const B: usize, const L: usize>(op: &str, p: &[&str]) -> String {
         "scale" => {
             use parity_scale_codec::{Encode, MaxEncodedLen};
             let e = Encode::encode(&v);
+            { let mut ap = vec![0xa5u8, 0x5a, 0x01]; Encode::encode_to(&v, &mut ap); app_bad |= ap[..3] != [0xa5, 0x5a, 0x01] || ap[3..] != e[..]; }
             let sh = rt(|| Encode::size_hint(&v)).map(|x| x.to_string()).unwrap_or("PANIC".into());
             let es = rt(|| Encode::encoded_size(&v)).map(|x| x.to_string()).unwrap_or("PANIC".into());
             let mx = <U<B, L> as MaxEncodedLen>::max_encoded_len();
@@ -348,6 +353,7 @@ pub fn enc<const B: usize, const L: usize>(op: &str, p: &[&str]) -> String {
             let e0 = rt(|| CompactRefUint(&v).encode());
             let mut e = vec![];
             CompactRefUint(&v).encode_to(&mut e);
+            { let mut ap = vec![0xa5u8, 0x5a, 0x01]; CompactRefUint(&v).encode_to(&mut ap); app_bad |= ap[..3] != [0xa5, 0x5a, 0x01] || ap[3..] != e[..]; }
             let enc_ok = match &e0 {
                 Some(x) if *x == e => "same",
                 Some(_) => "DIFF",
@@ -365,6 +371,7 @@ pub fn enc<const B: usize, const L: usize>(op: &str, p: &[&str]) -> String {
         }
         "ssz" => {
             let e = ssz::Encode::as_ssz_bytes(&v);
+            { let mut ap = vec![0xa5u8, 0x5a, 0x01]; ssz::Encode::ssz_append(&v, &mut ap); app_bad |= ap[..3] != [0xa5, 0x5a, 0x01] || ap[3..] != e[..]; }
             match B {
                 8 => prim_bad |= ssz::Encode::as_ssz_bytes(&(as_u64(&v).unwrap() as u8)) != e,
                 16 => prim_bad |= ssz::Encode::as_ssz_bytes(&(as_u64(&v).unwrap() as u16)) != e,
@@ -385,6 +392,7 @@ pub fn enc<const B: usize, const L: usize>(op: &str, p: &[&str]) -> String {
         }
         "borsh" => {
             let e = borsh::to_vec(&v).unwrap();
+            { let mut ap = vec![0xa5u8, 0x5a, 0x01]; borsh::BorshSerialize::serialize(&v, &mut ap).unwrap(); app_bad |= ap[..3] != [0xa5, 0x5a, 0x01] || ap[3..] != e[..]; }
             match B {
                 8 => prim_bad |= borsh::to_vec(&(as_u64(&v).unwrap() as u8)).unwrap() != e,
                 16 => prim_bad |= borsh::to_vec(&(as_u64(&v).unwrap() as u16)).unwrap() != e,
@@ -490,6 +498,9 @@ pub fn enc<const B: usize, const L: usize>(op: &str, p: &[&str]) -> String {
     };
     if prim_bad {
         out.push_str(" PRIM-MISMATCH");
+    }
+    if app_bad {
+        out.push_str(" APPEND-MISMATCH");
     }
     out
 }
